@@ -392,6 +392,26 @@ type Finding struct {
 	re        *regexp.Regexp
 }
 
+// RepoDir is the repository the harness was built against (/repo unless VERIF_REPO says otherwise).
+func RepoDir() string {
+	if d := os.Getenv("VERIF_REPO"); d != "" {
+		return d
+	}
+	return "/repo"
+}
+
+// dirOr returns the directory named by env, else the default below VerifDir.
+func dirOr(env, def string) string {
+	if d := os.Getenv(env); d != "" {
+		return d
+	}
+	return filepath.Join(VerifDir, def)
+}
+
+// WorkDir, BinDir: scratch and binary directories of this run.
+func WorkDir() string { return dirOr("VERIF_WORK_DIR", ".work") }
+func BinDir() string  { return dirOr("VERIF_BIN_DIR", ".bin") }
+
 var (
 	VerifDir     = "/verif"
 	findingsOnce sync.Once
@@ -477,10 +497,10 @@ func self() string {
 
 func gitInfo() map[string]string {
 	m := map[string]string{}
-	if out, err := exec.Command("git", "-C", "/repo", "rev-parse", "HEAD").Output(); err == nil {
+	if out, err := exec.Command("git", "-C", RepoDir(), "rev-parse", "HEAD").Output(); err == nil {
 		m["head"] = strings.TrimSpace(string(out))
 	}
-	if out, err := exec.Command("git", "-C", "/repo", "diff", "HEAD").Output(); err == nil {
+	if out, err := exec.Command("git", "-C", RepoDir(), "diff", "HEAD").Output(); err == nil {
 		m["worktree_diff_hash"] = fmt.Sprintf("%016x", Hash64(out))
 		m["worktree_dirty"] = strconv.FormatBool(len(out) > 0)
 	}
@@ -724,7 +744,7 @@ func Orchestrate(id string, p Params) int {
 		return 2
 	}
 	start := time.Now()
-	work := filepath.Join(VerifDir, ".work", id)
+	work := filepath.Join(WorkDir(), id)
 	os.RemoveAll(work)
 	merged, harnessFail, nWit, total, nw, race := runWorkers(ck, p, work)
 	wits := Witnesses(id)
@@ -805,7 +825,7 @@ func Orchestrate(id string, p Params) int {
 			continue
 		}
 		seenSig[v.Sig] = true
-		dir := filepath.Join(VerifDir, "replay", id)
+		dir := filepath.Join(dirOr("VERIF_REPLAY_DIR", "replay"), id)
 		os.MkdirAll(dir, 0o755)
 		path := filepath.Join(dir, fmt.Sprintf("%016x.json", Hash64([]byte(v.Sig), v.W.Src)))
 		b, _ := json.MarshalIndent(v, "", " ")
@@ -843,8 +863,9 @@ func Orchestrate(id string, p Params) int {
 	ev := Evidence{PropertyID: id, Tier: p.Tier, Seed: p.Seed, Level: ck.Level, Coverage: cov, Assumptions: ck.Assumptions,
 		WallS: time.Since(start).Seconds(), Violations: len(seenSig), Repo: gitInfo()}
 	b, _ := json.MarshalIndent(ev, "", " ")
-	os.MkdirAll(filepath.Join(VerifDir, "evidence"), 0o755)
-	os.WriteFile(filepath.Join(VerifDir, "evidence", id+".json"), b, 0o644)
+	evDir := dirOr("VERIF_EVIDENCE_DIR", "evidence")
+	os.MkdirAll(evDir, 0o755)
+	os.WriteFile(filepath.Join(evDir, id+".json"), b, 0o644)
 
 	fmt.Printf("%s tier=%s seed=%d: %d cases (%d witness), %d distinct non-trivial, %d unknown violation signature(s), %d known finding(s) reproduced, inconclusive=%v, %.1fs\n",
 		id, p.Tier, p.Seed, merged.Evaluations, len(wits), distinct, len(seenSig), len(knownRepro), merged.Inconclusive, time.Since(start).Seconds())
